@@ -6,7 +6,7 @@ import json, os, re, subprocess, sys, shutil
 V = '/verif'
 WT = '/tmp/wt_seedreg'
 OUT = '/tmp/vxout_seedreg'
-EXTRA = {'C15-c': ['C03'], 'C12-d': ['C06'], 'C06-d': ['C19'], 'C03-c': ['C04'], 'C01-d': ['C02'], 'C02-c': ['C01'], 'C02-d': ['C09'], 'C09-d': ['C07'], 'C15-b': ['C10'], 'C12-a': ['C01'], 'C06-b': ['C15'], 'C05-b': ['C15'], 'C14-b': ['C16'], 'C09-a': [], 'C12-b': ['C05']}
+EXTRA = {'C01-e': ['C02'], 'C12-f': ['C06'], 'C12-e': ['C06'], 'C02-f': ['C01'], 'C15-c': ['C03'], 'C12-d': ['C06'], 'C06-d': ['C19'], 'C03-c': ['C04'], 'C01-d': ['C02'], 'C02-c': ['C01'], 'C02-d': ['C09'], 'C09-d': ['C07'], 'C15-b': ['C10'], 'C12-a': ['C01'], 'C06-b': ['C15'], 'C05-b': ['C15'], 'C14-b': ['C16'], 'C09-a': [], 'C12-b': ['C05']}
 ids = sys.argv[1:] or sorted(d for d in os.listdir(V + '/seeded') if os.path.exists(V + '/seeded/%s/patch.diff' % d))
 subprocess.run(['git', '-C', '/repo', 'worktree', 'remove', '--force', WT], capture_output=True)
 subprocess.run(['git', '-C', '/repo', 'worktree', 'prune'])
